@@ -118,9 +118,22 @@ def ob_next(ctx, W):
     return verdict(ctx, props, witness=wit, sample=lambda m: dict(wit(m), outcome='accept'))
 
 
+DEEP_WALKS = [
+    ['diffx', '.change', '..file', '...meta', '...diff'],
+    ['diffx', '.change', '..file', '...meta', '...diff', '..file', '...meta'],
+    ['diffx', '.change', '..file', '...meta', '...diff', '.change'],
+    ['diffx', '.change', '..file', '...meta', '...diff', '.change', '..preamble'],
+    ['diffx', '.preamble', '.meta', '.change', '..preamble', '..meta', '..file', '...meta', '...diff'],
+    ['diffx', '.change', '..meta', '.change', '..file', '...meta', '..file', '...meta', '...diff', '..file'],
+]
+
+
 def obligations(tier):
     quick = tier == 'quick'
     W = walks(4 if quick else 6)
+    # every one of the nine states must be reached in the quick tier too (a '...diff' needs five sections), and
+    # some states are reached a second time through a longer history
+    W = W + [w for w in DEEP_WALKS if w not in W]
     obs = [Ob('relation', ob_relation, {}, desc='finite query: VALID_SECTION_STATES (current source) == REF_HIER '
               'over all 24x24 (level 0-3 x 6 names) id pairs', bounds={'ids': 24})]
     obs.append(Ob('next-header', ob_next, dict(W=W), must_reach=['DiffXReader.iter_sections', 'DiffXReader._read_header'],
